@@ -31,13 +31,30 @@ UNIT = Unit(
              "`let mut all_generics` to the `methods_to_add.insert`, with the FnScheme literal) are replaced by the stub method_scheme (arbitrary "
              "scheme, diagnostics may grow); `entry(key).or_default()` + `methods.extend(..)` is the shim inherent_extend (IndexMap::extend: same-name "
              "entries are replaced); hir::ImplBlock / hir::Def / hir::Fn / HirTable, HashSet<String>, IndexMap<String, FnScheme> are shims",
-             "toplevel::inherent_method_overlaps (the walk over the impl table that looks for the method under the other kind of key) is a stub trusted to "
-             "compute overlap_defined; try_constr_name is uninterpreted"],
+             "toplevel::inherent_method_overlaps is verified (whole function): `impls.iter()` is the shim entries_vec (every key that has a method is among "
+             "the entries); try_constr_name is uninterpreted; ASSUMED axiom: the table is keyed by the TEXT of a constructor name (axiom_constr_key_by_text)"],
     items=[
         Adt(file="crates/compiler/src/tast.rs", kw="enum", name="Ty", rules=["attrs"]),
         Adt(file="crates/compiler/src/env.rs", kw="enum", name="InherentImplKey", rules=["attrs", ("strip", "tast::")]),
         Raw(path="contracts/orphan.shim.rs"),
         Raw(path="contracts/inherent.shim.rs"),
+        Fn(file=T, name="inherent_method_overlaps", ret="r", optional=True, attrs="#[verifier::loop_isolation(false)]",
+           rules=["attrs", ("strip", "tast::"), ("strip", "hir::"), ("strip", "env::"), ("strip", "super::util::"), "opt_is_some_and", "iter_any"],
+           pre_rewrites=[("let impls = &env.current().trait_env.inherent_impls;", "let impls = &env.current().trait_env.inherent_impls; let __ents = impls.entries_vec();", 1),
+                         ("impls.iter().any(", "__ents.iter().any(", "*"),
+                         (re.compile(r"matches!\(other, env::InherentImplKey::Exact\(ty\)\s*if super::util::try_constr_name\(ty\)\.as_deref\(\) == Some\(constr\.as_str\(\)\)\)"),
+                          "(match other { InherentImplKey::Exact(ty) => constr_is(ty, constr), _ => false })", "*")],
+           rewrites=[(re.compile(r"\.methods\.contains_key\(method\)"), ".methods.contains_str(method)", "*")],
+           obligation="true exactly when the method is defined under the OTHER kind of key for the same type constructor — for EVERY instance impl of the "
+                      "constructor, not just the first one the table lists",
+           contract="ensures r == overlap_defined(env.cur.trait_env.inherent_impls, *key, *for_ty, method@),",
+           ghost=[("?Some(constr) =>", "line-after", "proof { assert forall|k: InherentImplKey| k matches InherentImplKey::Constr(cs) && cs@ == constr@ implies "
+                   "#[trigger] env.cur.trait_env.inherent_impls.methods(k) == env.cur.trait_env.inherent_impls.methods(InherentImplKey::Constr(constr)) by { "
+                   "axiom_constr_key_by_text(env.cur.trait_env.inherent_impls, k, InherentImplKey::Constr(constr)); } }")],
+           loop_fn=lambda k, header, kw: ("invariant __i0 <= __ents@.len(),\n"
+               "  !__r0 ==> forall|j: int| 0 <= j < __i0 ==> !((#[trigger] __ents@[j]).0 matches InherentImplKey::Exact(ty) && constr_name_of(ty) == Some(constr@) && __ents@[j].1.methods@.dom().contains(method@)),\n"
+               "  __r0 ==> exists|j: int| 0 <= j < __ents@.len() && ((#[trigger] __ents@[j]).0 matches InherentImplKey::Exact(ty) && constr_name_of(ty) == Some(constr@) && __ents@[j].1.methods@.dom().contains(method@)),\n"
+               "decreases __ents@.len() - __i0," if "__i0 <" in header else None)),
         Fn(file=T, name="define_inherent_impl", rename="inherent_methods", ret="r",
            cut_from="let mut methods_to_add: IndexMap<String, env::FnScheme> = IndexMap::new();",
            sig="fn inherent_methods(env: &mut PackageTypeEnv, diagnostics: &mut Diagnostics, impl_block: &ImplBlock, hir_table: &HirTable, key: InherentImplKey, for_ty: Ty)",
